@@ -52,6 +52,18 @@ def guarded_case(rng, n, i):
     return {"partial": rng.random() < 0.3, "terms": terms, "events": evs, "_layout": list(range(n)), "_kind": f"guarded{n}"}
 
 
+def zero_arg_case(rng, n, i):
+    """flat n-tuple; elements i and i+1 are patterns of a method WITHOUT parameters (TerminationMock::report, Inputs = ()): the first
+    one's matcher rejects the (only possible) argument tuple, the second accepts; report() must be answered by the second"""
+    terms = []
+    for k in range(n):
+        if k == i: terms.append({"kind": "call", "mid": 8, "opener": "each", "pat": {"matcher": 255, "dbg": k + 1, "ops": [("ret", 5)]}})
+        elif k == i + 1: terms.append({"kind": "call", "mid": 8, "opener": "each", "pat": {"matcher": 511, "dbg": k + 1, "ops": [("ret", 6)]}})
+        else: terms.append(each(rng.choice([1, 2, 3]), 255, k + 1, k + 1))
+    evs = [{"base": ("call", 0, t["mid"], rng.randrange(8))} for t in terms if t["mid"] != 8] + [{"base": ("report", 0)}]
+    return {"partial": rng.random() < 0.3, "terms": terms, "events": evs, "_layout": list(range(n)), "_kind": f"zeroarg{n}"}
+
+
 def ordered_case(rng, n):
     """flat n-tuple of ordered clauses over 3 methods: the slot sequence is the written sequence"""
     terms = [nxt(rng.choice([0, 1, 2]), k + 1, k + 1) for k in range(n)]
@@ -99,6 +111,8 @@ def targeted_cases(rng, tier):
         out.append(ordered_case(rng, n))
         if n <= 6 or tier != "quick":
             out.append(guarded_case(rng, n, rng.randrange(n - 1)))
+        if n in (2, 3, 5) or tier != "quick":
+            out.append(zero_arg_case(rng, n, rng.randrange(n - 1)))
     return out
 
 
